@@ -71,6 +71,16 @@ def _fold(t):
     if not isinstance(t, tuple) or not t or t[0] == "const":
         return t
     t = tuple(_fold(x) if isinstance(x, tuple) else x for x in t)
+    if t[0] == "unop" and t[1] in ("Invert", "USub") and \
+            t[2][0] == "const" and isinstance(t[2][1], int) and \
+            not isinstance(t[2][1], bool):
+        return ("const", ~t[2][1] if t[1] == "Invert" else -t[2][1])
+    if t[0] == "binop" and t[1] in ("BitAnd", "BitOr") and \
+            t[2][0] == "const" and t[3][0] == "binop" and t[3][1] == t[1] \
+            and t[3][2][0] == "const":
+        # c1 & (c2 & x): the constants of a chain are combined
+        return _fold(("binop", t[1], ("binop", t[1], t[2], t[3][2]),
+                      t[3][3]))
     if t[0] == "binop" and t[2][0] == "const" and t[3][0] == "const":
         a, b = t[2][1], t[3][1]
         if all(isinstance(v, (int, float)) and not isinstance(v, bool)
@@ -124,6 +134,23 @@ class _Levels(object):
                                              {self.lv: ("const", L)})
         m[("attr", SELF, "level")] = ("const", L)
         return _fold(_subst(plain(t), m))
+
+
+def _arith(t):
+    """``t`` with masks by 2**k - 1 and right shifts by constants written as
+    the remainders / quotients they are."""
+    if not isinstance(t, tuple) or not t or t[0] == "const":
+        return t
+    t = tuple(_arith(x) if isinstance(x, tuple) else x for x in t)
+    if t[0] == "binop" and t[1] == "BitAnd":
+        for a, b in ((t[2], t[3]), (t[3], t[2])):
+            if b[0] == "const" and isinstance(b[1], int) and b[1] > 0 and \
+                    (b[1] + 1) & b[1] == 0:
+                return ("binop", "Mod", a, ("const", b[1] + 1))
+    if t[0] == "binop" and t[1] == "RShift" and t[3][0] == "const" and \
+            isinstance(t[3][1], int) and 0 <= t[3][1] < 64:
+        return ("binop", "FloorDiv", t[2], ("const", 1 << t[3][1]))
+    return t
 
 
 def _poly(fl, t):
@@ -292,10 +319,11 @@ def r2_index(program, rep, BIT):
             for nm, var, want in (
                     (names[0], "x", "self.base_x + %d * ((x >> %d) & 3)"),
                     (names[1], "y", "self.base_y + %d * ((y >> %d) & 3)")):
-                got = _poly(afl, lv.at(b_.get(nm, ("?",)), L))
-                exp = afl.sym(_wp(ast.parse(want % (step, sh),
-                                            mode="eval").body),
-                              afl.cfg.entry)
+                # (x & (2**k - 1) and x >> k read as x % 2**k and
+                # x // 2**k on both sides: the same numbers for every int)
+                got = _poly(afl, _arith(lv.at(b_.get(nm, ("?",)), L)))
+                exp = _poly(afl, _arith(plain(A.term(_wp(ast.parse(
+                    want % (step, sh), mode="eval").body), A.cfg.entry))))
                 if got != exp and not afl.prove(afl.cfg.entry, eq(got, exp),
                                                 use_facts=False):
                     okb = False
@@ -326,7 +354,12 @@ def r3_collapse(program, folder, rep):
     ok = bool(paths)
     for ps_ in paths:
         here = set((plain(t), p) for t, p in ps_)
-        ok = ok and full in here and notroot in here
+        # (levels are 0..3: 'not the root' may be written level != 0,
+        # level > 0 or level >= 1)
+        ok = ok and full in here and (
+            notroot in here or
+            (mk_cmp("Lt", ("const", 0), LEVEL), True) in here or
+            (mk_cmp("LtE", ("const", 1), LEVEL), True) in here)
     rep.check(ok, "C12-R3", inst, "a node reports 'full' "
               "for a core iff all 16 sub-blocks are selected (== 0xffff) and "
               "it is not the root", construct="collapse condition",
@@ -380,6 +413,16 @@ def r3_collapse(program, folder, rep):
         test2 = ("binop", "BitAnd", plain(BITV), CELL)
         okd = any(p is False and plain(t) in (test, test2)
                   for t, p in A.all_facts(n))
+    okl = any((mk_cmp("Eq", LEVEL, ("const", 3)), True) in [
+        (plain(t), p) for t, p in A.all_facts(s_[0])] for s_ in sets)
+    flagged = any(t[0] in ("mu", "phi") for s_ in sets
+                  for t, p in A.all_facts(s_[0]))
+    if flagged and not (oks and okl):
+        # the selection is made under a flag variable set on several paths
+        # (leaf / child reported full): which path set it is not followed
+        raise AnalysisError("add_core: the sub-block is selected under a "
+                            "flag variable; the paths that set it are not "
+                            "followed by these rules")
     rep.check(oks, "C12-R3", inst, "the parent selects a sub-block exactly "
               "when the child covering it reported full for that core (and "
               "forwards the same x, y, p)", construct="parent bit on full",
